@@ -71,7 +71,7 @@ const A2: &str = "#[a2(x)]";
 #[derive(Clone, Debug, PartialEq, Eq, Hash, Serialize, Deserialize)]
 pub struct ValState {
     pub choices: Vec<Choice>,
-    /// number of user types in the registry (1..=3): K only / K, L / K, L, M
+    /// the registry: 1..=3 = K only / K, L / K, L, M; 4 = K, L, M and five types in digit-suffixed sibling modules
     pub reg_size: u8,
     /// how many paths have been decided (construction depth)
     #[serde(default)]
@@ -84,7 +84,15 @@ fn registry(reg_size: u8) -> PortableRegistry {
         Def::strukt(&["p", "r#type"], "L", &[], unnamed(vec![U16])),
         Def::strukt(&["p", "a", "Z2"], "M", &[], Fields::Unit),
     ];
-    defs.truncate(reg_size as usize);
+    if reg_size <= 3 {
+        defs.truncate(reg_size as usize);
+    } else {
+        // size 4: next to module `a` five types in modules whose names extend it by a digit (`a2`, `a20`): the order
+        // of path segment lists and the order of the joined strings differ there (':' sorts after the digits)
+        for (m, n) in [("a2", "X1"), ("a2", "X2"), ("a20", "X3"), ("a2", "X4"), ("a0", "X5")] {
+            defs.push(Def::strukt(&["p", m], n, &[], Fields::Unit));
+        }
+    }
     let roots = (0..defs.len()).map(|i| Ty::Named(i, vec![])).collect();
     elaborate(&Program { defs, roots }).registry
 }
@@ -307,14 +315,14 @@ impl Driver for DVal {
     type State = ValState;
     fn name(&self) -> String {
         format!(
-            "D-validate({} paths: 2 known + {} unknown (one a proper suffix of a known path{}) x 12 registrations each (specific / recursive / both / substitute / substitute+derive) x 3 registry sizes x map orders)",
+            "D-validate({} paths: 2 known + {} unknown (one a proper suffix of a known path{}) x 12 registrations each (specific / recursive / both / substitute / substitute+derive) x 4 registries x map orders)",
             self.n_paths,
             self.n_paths - 2,
             if self.n_paths > 4 { ", one extending a known path" } else { "" }
         )
     }
     fn initial(&self) -> Vec<ValState> {
-        (1..=3u8)
+        (1..=4u8)
             .map(|r| ValState {
                 choices: vec![Choice::Absent; self.n_paths],
                 reg_size: r,
